@@ -601,6 +601,9 @@ func (l *Ledger) ConfirmBlock(block *pb.InternalBlock, isRoot bool) ConfirmStatu
 			return confirmStatus
 		}
 		block.Height = preBlock.Height + 1 //不管是主干还是分支，height都是++
+		// a block that is being confirmed has no successor yet: the next link is maintained by the ledger,
+		// whatever the sender put into this field (it is covered by neither the id nor the signature)
+		block.NextHash = nil
 		if bytes.Equal(preBlock.Blockid, newMeta.TipBlockid) {
 			//在主干上添加
 			block.InTrunk = true
